@@ -683,10 +683,23 @@ impl Family for Ladders {
                 d *= 2;
             }
         }
+        // flat code of a few thousand lines (generated code is like this): time and memory must stay
+        // in proportion (the workers of this family run under an address-space limit)
+        for k in ["let-sequence", "statement-sequence", "many-functions", "many-match-arms", "string-concat"] {
+            for d in if tier == Tier::Quick { vec![4096, 8192] } else { vec![4096, 8192, 16384, 32768] } {
+                v.push(json!({"ladder": k, "depth": d}));
+            }
+        }
         Box::new(v.into_iter())
     }
     fn workers(&self) -> usize {
         16
+    }
+    fn worker_address_space_limit(&self) -> Option<u64> {
+        // 1 GiB is the stack of the compiling thread; the rest is what a compilation of a few
+        // thousand lines may take (a pass that copies the rest of the function at every statement
+        // needs 2.6 GiB for 4000 statements)
+        Some(3 << 30)
     }
     fn case_timeout(&self, tier: Tier) -> u64 {
         // some ladders are (polynomially) slow in the nesting depth; only non-termination is a verdict
